@@ -32,7 +32,7 @@ INVARIANT JacIsDerivative
 CHECK_DEADLOCK FALSE
 """
 
-TRANSLATABLE = ["two", "id", "neg", "dbl", "inc", "add", "sub", "mul", "mad", "step", "sel"]
+TRANSLATABLE = ["two", "id", "neg", "dbl", "inc", "add", "sub", "mul", "mad", "step", "sel", "cut"]
 UNTRANSLATABLE = {"loopinc", "dsum"}
 
 
